@@ -173,7 +173,17 @@ func (m Msg) validNotification() bool {
 // sessions, other sessions are untouched, and a re-establishment starts empty.
 func OracleC07(c Case, obs []StepObs) []Finding {
 	var out []Finding
-	add := func(sig, d string) { out = append(out, Finding{sig, d}) }
+	reported := map[string]bool{} // a leftover persists over the following steps: report it where it first shows
+	add := func(sig, d string) {
+		k := sig
+		if j := strings.Index(sig, "-after-"); j >= 0 {
+			k = sig[:j]
+		}
+		if !reported[k] {
+			reported[k] = true
+			out = append(out, Finding{sig, d})
+		}
+	}
 	walk(c, obs, func(i int, e Event, prev byte, prevAtt bool, o StepObs, po *StepObs) {
 		if o.Panic != "" || o.Wedged != "" {
 			return
@@ -413,6 +423,227 @@ func OracleC21(c Case, obs []StepObs) []Finding {
 		}
 		if !ok {
 			add("wrong-notification-for-"+class, where+" owed="+strings.Join(set, "|"))
+		}
+	})
+	return out
+}
+
+// ---- C22
+
+// openClauses lists the clauses of the property that an OPEN violates for session c (empty = valid),
+// as the NOTIFICATION tokens that are acceptable answers. Written from the property text.
+func openClauses(m Msg, c SessCfg) (viol []string, names []string) {
+	if m.Ver != 4 {
+		viol, names = append(viol, "N2.1"), append(names, "version")
+	}
+	// peer AS through AS_TRANS and the 4-octet capability
+	as := uint32(m.ASN16)
+	for _, x := range m.Caps {
+		if x.Kind == 'a' && as == 23456 {
+			as = x.V
+		}
+	}
+	if as != c.PAS {
+		viol, names = append(viol, "N2.2"), append(names, "peer-as")
+	}
+	if m.ID == 0 || (c.LAS == c.PAS && m.ID == c.RID) {
+		viol, names = append(viol, "N2.3"), append(names, "identifier")
+	}
+	if m.Hold == 1 || m.Hold == 2 {
+		viol, names = append(viol, "N2.6"), append(names, "hold-time")
+	}
+	if c.LAS != c.PAS && c.Role >= 1 && c.Role <= 5 {
+		var roles []uint32
+		for _, x := range m.Caps {
+			if x.Kind == 'r' {
+				roles = append(roles, x.V)
+			}
+		}
+		ok := true
+		if len(roles) == 0 {
+			ok = !c.Strict
+		} else {
+			for _, r := range roles {
+				if r != roles[0] {
+					ok = false
+				}
+			}
+			loc := uint32(wireRole(c.Role))
+			pair := map[[2]uint32]bool{{0, 3}: true, {3, 0}: true, {1, 2}: true, {2, 1}: true, {4, 4}: true}
+			if !pair[[2]uint32{loc, roles[0]}] {
+				ok = false
+			}
+		}
+		if !ok {
+			viol, names = append(viol, "N2.11"), append(names, "role")
+		}
+	}
+	return viol, names
+}
+
+func expectedNeg(m Msg, c SessCfg) string {
+	h := c.Hold
+	if m.Hold < h {
+		h = m.Hold
+	}
+	ka := h * 1000 / 3
+	has := func(f func(Cap) bool) bool {
+		for _, x := range m.Caps {
+			if f(x) {
+				return true
+			}
+		}
+		return false
+	}
+	asn4 := has(func(x Cap) bool { return x.Kind == 'a' })
+	apSend := func(afi uint32) bool {
+		return has(func(x Cap) bool { return x.Kind == 'p' && x.A == afi && x.S == 1 && (x.V == 2 || x.V == 3) })
+	}
+	apRecv := func(afi uint32) bool {
+		return has(func(x Cap) bool { return x.Kind == 'p' && x.A == afi && x.S == 1 && (x.V == 1 || x.V == 3) })
+	}
+	mp := func(afi uint32) bool { return has(func(x Cap) bool { return x.Kind == 'm' && x.A == afi && x.S == 1 }) }
+	adv, remote := false, uint32(0)
+	if c.Role >= 1 && c.Role <= 5 {
+		for _, x := range m.Caps {
+			if x.Kind == 'r' {
+				adv, remote = true, x.V
+			}
+		}
+	}
+	return fmt.Sprintf("h%dk%dt%sa%sx%s%s%s%s%s%sr%s%d", h, ka, b01(h != 0), b01(asn4),
+		b01(c.V4 && c.APR4 && apSend(1)), b01(c.V4 && c.APS4 && apRecv(1)), b01(c.V4 && c.MP4 && mp(1)),
+		b01(c.V6 && c.APR6 && apSend(2)), b01(c.V6 && c.APS6 && apRecv(2)), b01(c.V6 && mp(2)), b01(adv), remote)
+}
+
+func expectedSentOpen(c SessCfg) string {
+	asn := c.LAS
+	if asn > 65535 {
+		asn = 23456
+	}
+	var caps []string
+	ap := func(recv, send bool, afi int) {
+		v := 0
+		if recv {
+			v++
+		}
+		if send {
+			v += 2
+		}
+		if v != 0 {
+			caps = append(caps, fmt.Sprintf("p%d.1.%d", afi, v))
+		}
+	}
+	if c.V4 {
+		ap(c.APR4, c.APS4, 1)
+	}
+	if c.V6 {
+		ap(c.APR6, c.APS6, 2)
+	}
+	caps = append(caps, fmt.Sprintf("a%d", c.LAS))
+	if c.V4 && c.MP4 {
+		caps = append(caps, "m1.1")
+	}
+	if c.V6 {
+		caps = append(caps, "m2.1")
+	}
+	if c.LAS != c.PAS && c.Role >= 1 && c.Role <= 5 {
+		caps = append(caps, fmt.Sprintf("r%d", wireRole(c.Role)))
+	}
+	sortStrings(caps)
+	return fmt.Sprintf("O%d.%d.%d.%s", asn, c.Hold, c.RID, strings.Join(caps, "+"))
+}
+
+func sortStrings(s []string) {
+	for i := 1; i < len(s); i++ {
+		for j := i; j > 0 && s[j] < s[j-1]; j-- {
+			s[j], s[j-1] = s[j-1], s[j]
+		}
+	}
+}
+
+// OracleC22: admission and negotiation on the implementation's outputs.
+func OracleC22(c Case, obs []StepObs) []Finding {
+	var out []Finding
+	add := func(sig, d string) { out = append(out, Finding{sig, d}) }
+	broken := make([]bool, len(c.Sess))
+	connOpen := make([]bool, len(c.Sess))
+	lastValid := make([]bool, len(c.Sess))
+	walk(c, obs, func(i int, e Event, prev byte, prevAtt bool, o StepObs, po *StepObs) {
+		if o.Panic != "" || o.Wedged != "" {
+			return
+		}
+		cfg := c.Sess[e.Sid]
+		where := fmt.Sprintf("step %d (%s): %s -> %s sent=%v neg=%s", i, e, stateName(prev), stateName(o.State), o.Outs, o.Neg)
+		wasOpen, wasBroken := connOpen[e.Sid], broken[e.Sid]
+		switch e.Kind {
+		case "up", "upx":
+			if prev == 'C' || prev == 'A' {
+				broken[e.Sid] = e.Kind == "upx"
+			}
+		case "brk":
+			broken[e.Sid] = true
+		}
+		connOpen[e.Sid] = o.Conn == 'o'
+		// the OPEN we send
+		for _, x := range o.Outs {
+			if strings.HasPrefix(x, "O") && x != expectedSentOpen(cfg) {
+				add("sent-open-differs-from-configuration", where+" expected="+expectedSentOpen(cfg))
+			}
+		}
+		if prev != 'E' && o.State == 'E' && !lastValid[e.Sid] {
+			add("established-without-a-valid-open", where)
+		}
+		if prev != 'F' && o.State == 'F' && !(e.Kind == "m" && e.M.Kind == 'O') {
+			add("openconfirm-entered-without-open", where)
+		}
+		if !(e.Kind == "m" && e.M.Kind == 'O' && prev == 'S' && wasOpen && !wasBroken) || o.ReadErr {
+			return
+		}
+		viol, names := openClauses(e.M, cfg)
+		if len(viol) == 0 {
+			lastValid[e.Sid] = true
+			if o.State != 'F' {
+				add("valid-open-rejected", where)
+				return
+			}
+			if len(o.Outs) != 1 || o.Outs[0] != "K" {
+				add("valid-open-not-answered-with-keepalive-only", where)
+			}
+			if want := expectedNeg(e.M, cfg); want != o.Neg {
+				field := "options"
+				if want[:strings.IndexByte(want, 'k')] != o.Neg[:strings.IndexByte(o.Neg, 'k')] {
+					field = "hold-time"
+				}
+				add("negotiated-"+field+"-wrong", where+" expected="+want)
+			}
+			return
+		}
+		lastValid[e.Sid] = false
+		cls := strings.Join(names, "+")
+		if o.State == 'F' || o.State == 'E' {
+			add("invalid-open-accepted-"+cls, where)
+			return
+		}
+		if o.Conn != 'c' {
+			add("connection-left-open-after-rejected-open-"+cls, where)
+		}
+		sent := ""
+		for _, x := range o.Outs {
+			if strings.HasPrefix(x, "N") {
+				sent = x
+			}
+		}
+		ok := false
+		for _, v := range viol {
+			if v == sent {
+				ok = true
+			}
+		}
+		if sent == "" {
+			add("no-open-error-notification-"+cls, where)
+		} else if !ok {
+			add("wrong-open-error-notification-"+cls, where+" acceptable="+strings.Join(viol, "|"))
 		}
 	})
 	return out
